@@ -361,7 +361,10 @@ theorem handleSubmoduleLog_rel (h : MRel ρ ρ' cfg.tab m m') (hl : LRel ρ ρ' 
   rw [ht]
   split
   · exact HRel.ok h
-  · exact handleAdditionalCases_rel h hl (.same _)
+  · have hX : MRel ρ ρ' cfg.tab (pendingDiffName cfg (flushMP m)) (pendingDiffName cfg (flushMP m')) :=
+      pendingDiffName_rel (flushMP_rel h) cfg
+    have hn : (pendingDiffName cfg (flushMP m)).n = m.n := by simp
+    exact handleAdditionalCases_rel hX (hn ▸ hl) (.same _)
 
 theorem submoduleShortTest_rel (h : MRel ρ ρ' cfg.tab m m') (hl : Agree l l') :
     submoduleShortTest m' l' = submoduleShortTest m l := by
